@@ -65,11 +65,11 @@ IReset(c, rc, sv, f) ==
 \* ---- attach_notification ------------------------------------------------------------
 IAttachN(g, x) ==
     /\ gd[g] = NoGuard
-    /\ IF x \in rset THEN
-           /\ Attach(g, AttN(x), "AlreadyAttached", cnt, MapSize)
-           /\ UNCHANGED ivars
-       ELSE IF Cardinality(rset) >= rcap THEN
+    /\ IF Cardinality(rset) >= rcap THEN      \* FileDescriptorSet::add tests the capacity first
            /\ Attach(g, AttN(x), ReactorFullError, cnt, MapSize)
+           /\ UNCHANGED ivars
+       ELSE IF x \in rset THEN
+           /\ Attach(g, AttN(x), "AlreadyAttached", cnt, MapSize)
            /\ UNCHANGED ivars
        ELSE IF cnt = cap THEN          \* reactor guard is created and dropped again
            /\ Attach(g, AttN(x), "InsufficientCapacity", cnt, MapSize)
@@ -84,11 +84,11 @@ IAttachN(g, x) ==
 \* ---- attach_deadline ----------------------------------------------------------------
 IAttachD(g, x, c) ==
     /\ gd[g] = NoGuard
-    /\ IF x \in rset THEN
-           /\ Attach(g, AttD(x, c), "AlreadyAttached", cnt, MapSize)
-           /\ UNCHANGED ivars
-       ELSE IF Cardinality(rset) >= rcap THEN
+    /\ IF Cardinality(rset) >= rcap THEN      \* FileDescriptorSet::add tests the capacity first
            /\ Attach(g, AttD(x, c), ReactorFullError, cnt, MapSize)
+           /\ UNCHANGED ivars
+       ELSE IF x \in rset THEN
+           /\ Attach(g, AttD(x, c), "AlreadyAttached", cnt, MapSize)
            /\ UNCHANGED ivars
        ELSE IF cnt = cap THEN
            \* the deadline queue index is consumed; with InsertBeforeCheck the map entries stay
